@@ -177,7 +177,9 @@ def gen_scalar(rng):
     if k == 3:
         return rng.choice([0.0, -0.0, 1e22, 1e-7, 5e-324, float('nan'), float('inf'), float('-inf'), rng.uniform(-1e6, 1e6), 0.1 + 0.2])
     if k == 4:
-        return decimal.Decimal(rng.choice(['0', '-1.50', '1E+20', '12345678901234567890.123456789', '0.000000000000000000000001', '1.00000000000000000001'])) * rng.choice([1, -1])
+        # built from text, never by arithmetic: decimal arithmetic rounds to the context precision (28 digits) and would hide a literal that does the same
+        return decimal.Decimal(rng.choice(['', '-']) + rng.choice(['0', '1.50', '1E+20', '12345678901234567890.123456789', '0.000000000000000000000001', '1.00000000000000000001',
+                                                                     '1234567890123456789012345678901234.5', '0.' + '1234567890' * 4, '9' * 39, '1.' + '0' * 30 + '1', '1E-40', '7E+300']))
     if k == 5:
         return uuid.UUID(int=rng.getrandbits(128))
     if k == 6:
